@@ -485,3 +485,67 @@ def ob_g_shared(ob):
     """the autodiff force of an excited state is -d/dx of the energy this expression returns, so it equals the reported Etot's derivative only if the expression is the response-matrix quadratic form"""
     ob.note("this obligation is the one registered as C16.c; it is also decided here because the autodiff force of an excited state is -d/dx of the energy this expression returns, so it equals the reported Etot's derivative only if the expression is the response-matrix quadratic form")
     _C16_mod.ob_c(ob)
+
+
+def replay_force_branches():
+    """public API, water/AM1: the force returned with '2nd_grad' and with the default settings must both equal the central
+    finite difference of Hf"""
+    from .common import single_point, quiet
+
+    sp = torch.tensor([[8, 1, 1]])
+    xyz = torch.tensor([[[0.03, 0.02, 0.01], [0.96, 0.13, 0.07], [-0.21, 0.91, 0.23]]])
+    h = 1e-4
+    worst = 0.0
+    for kw in ({}, {"2nd_grad": True}):
+        m, es = single_point(sp, xyz, "AM1", **kw)
+        f = m.force[0, 1, 0].item()
+        xp, xm = xyz.clone(), xyz.clone()
+        xp[0, 1, 0] += h
+        xm[0, 1, 0] -= h
+        fd = -(single_point(sp, xp, "AM1")[0].Hf.item() - single_point(sp, xm, "AM1")[0].Hf.item()) / (2 * h)
+        print("replay Force.forward %s: force %.6f vs -dHf/dx by finite difference %.6f" % (kw or "default", f, fd))
+        worst = max(worst, abs(f - fd))
+    return worst > 1e-3
+
+
+@obligation(PID, "h", title="Force.forward hands back minus the gradient in every branch: back-propagated (default and with '2nd_grad', where the graph is kept) and analytical — for arbitrary gradient values")
+def ob_h(ob):
+    import types
+    from seqm.basics import Force
+
+    ob.encodes(Force.forward)
+    ob.bound("1 molecule x 2 atoms; the gradient deposited by backward() and the analytical gradient symbolic reals; branches: create_graph in {False, True} x analytical in {False, True}")
+    ob.assume("Energy and autograd are recorders: Hf.sum().backward() deposits a symbolic gradient in coordinates.grad")
+    G = S.reals("g", (1, 2, 3))
+    A = S.reals("ag", (1, 2, 3))
+    for create_graph in (False, True):
+        for analytical in (False, True):
+            X = SymTensor(S.reals("x", (1, 2, 3)))
+
+            class _L:
+                def backward(self_, retain_graph=False):
+                    X.grad = SymTensor(G.copy())
+
+            class _Hf(SymTensor):
+                def sum(self_, *a, **k):
+                    return _L()
+
+            Hf = _Hf(np.array([z3.Real("Hf")], dtype=object))
+            z = lambda n: SymTensor(np.array([z3.Real(n)], dtype=object))
+            mol = types.SimpleNamespace(active_state=0, nmol=1, coordinates=X, const=types.SimpleNamespace(do_timing=False), analytical_gradient=SymTensor(A.copy()))
+            me = types.SimpleNamespace(seqm_parameters={"analytical_gradient": [analytical]}, create_graph=create_graph, eig=False, uhf=False, energy=lambda m_, **k: (Hf, z("Et"), z("Ee"), z("En"), z("Ei"), None, z("gap"), z("e"), z("D"), z("q"), torch.tensor([False])))
+            with symbolic_factories():
+                out = Force.forward(me, mol)
+            F = out[0]
+            want = A if analytical else G
+            ob.require(isinstance(F, SymTensor) and F.a.shape == want.shape, "unexpected force returned in branch create_graph=%s analytical=%s" % (create_graph, analytical))
+            lab = "h:create_graph=%s analytical=%s" % (create_graph, analytical)
+            v, m = smt.prove(z3.And(*[F.a[k] == -want[k] for k in np.ndindex(want.shape)]), [], lab, "lra", 20)
+            if v == "sat":
+                if replay_force_branches():
+                    ob.violation("Force.forward does not return minus the gradient in the branch create_graph('2nd_grad')=%s, analytical=%s" % (create_graph, analytical), {"module": "harness.C01", "func": "replay_force_branches", "args": {}})
+                    return
+                raise HarnessError("force-branch counterexample did not reproduce (%s)" % lab)
+            ob.verdict(v, lab)
+    x = z3.Real("x")
+    expect_refuted(ob, x == -x, [], "twin: a dropped minus sign is noticed", "lra")
